@@ -379,4 +379,263 @@ theorem stream_split (fs : List Frame) :
       rw [stream_term f fs hf']
       simp [firstTerminal, prefixUntilTerminal, List.dropWhile_cons, List.takeWhile_cons, hf']
 
+/-! ### Lemmas used by Properties/C13.lean -/
+
+abbrev Vars := Option (List (String × PV))
+
+theorem first_ack (f : Frame) (h : (letter f).isAck = true) :
+    handle proto (some proto.ack) f = .ret none := by
+  have hs := handle_first_of_letter f
+  unfold FirstSpec at hs
+  cases hl : letter f <;> simp [hl, Letter.isAck] at h
+  simpa [hl, proto] using hs
+
+theorem first_not_ack (f : Frame) (h : (letter f).isAck = false) :
+    ∃ o, handle proto (some proto.ack) f = .raise o ∧
+      (¬ letter f = .outside → isBadBytes f = false → ∃ a, o = .invalidMessage a) := by
+  have hs := handle_first_of_letter f
+  unfold FirstSpec at hs
+  cases hl : letter f <;> simp only [hl] at hs
+  case ack => simp [hl, Letter.isAck] at h
+  case outside =>
+    obtain ⟨o, ho⟩ := hs
+    exact ⟨o, by simpa [proto] using ho, fun hne => absurd rfl hne⟩
+  case nonJson =>
+    refine ⟨_, by simpa [proto] using hs, ?_⟩
+    intro _ hb; exact ⟨.message, by simp [hb]⟩
+  all_goals exact ⟨_, by simpa [proto] using hs, fun _ _ => ⟨_, rfl⟩⟩
+
+theorem sent_contEvents (f : Frame) :
+    (contEvents f).filterMap Ev.sent? = if pingF f then [Msg.pong] else [] := by
+  unfold contEvents pingF
+  cases hl : letter f <;> simp only [hl] <;>
+    first | rfl | (rename_i d; cases hd : d.truthy <;> simp [hd] <;> rfl)
+
+theorem yielded_contEvents (f : Frame) :
+    (contEvents f).filterMap Ev.yielded? = ((letter f).truthyNextData).toList := by
+  unfold contEvents
+  cases hl : letter f <;> simp only [hl, Letter.truthyNextData] <;>
+    first | rfl | (rename_i d; cases hd : d.truthy <;> simp [hd] <;> rfl)
+
+theorem recv_contEvents (f : Frame) : (contEvents f).filterMap Ev.recv? = [f] := by
+  unfold contEvents
+  cases hl : letter f <;> simp only [hl] <;>
+    first | rfl | (rename_i d; cases hd : d.truthy <;> simp [hd] <;> rfl)
+
+theorem io_contEvents (f : Frame) : (contEvents f).filter Ev.isIO = ioOf f := by
+  unfold contEvents ioOf pingF
+  cases hl : letter f <;> simp only [hl] <;>
+    first | rfl | (rename_i d; cases hd : d.truthy <;> simp [hd] <;> rfl)
+
+theorem sent_prefix (pre : List Frame) :
+    (pre.flatMap contEvents).filterMap Ev.sent? = List.replicate (pre.countP pingF) Msg.pong := by
+  induction pre with
+  | nil => simp
+  | cons f pre ih =>
+    simp only [List.flatMap_cons, List.filterMap_append, sent_contEvents, ih, List.countP_cons]
+    by_cases hp : pingF f = true <;> simp [hp, List.replicate_succ]
+
+theorem yielded_prefix (pre : List Frame) :
+    (pre.flatMap contEvents).filterMap Ev.yielded? =
+      pre.filterMap (fun f => (letter f).truthyNextData) := by
+  induction pre with
+  | nil => simp
+  | cons f pre ih =>
+    simp only [List.flatMap_cons, List.filterMap_append, yielded_contEvents, ih, List.filterMap_cons]
+    cases (letter f).truthyNextData <;> simp
+
+theorem recv_prefix (pre : List Frame) : (pre.flatMap contEvents).filterMap Ev.recv? = pre := by
+  induction pre with
+  | nil => simp
+  | cons f pre ih => simp [List.flatMap_cons, List.filterMap_append, recv_contEvents, ih]
+
+theorem io_prefix (pre : List Frame) :
+    (pre.flatMap contEvents).filter Ev.isIO = pre.flatMap ioOf := by
+  induction pre with
+  | nil => simp
+  | cons f pre ih => simp [List.flatMap_cons, List.filter_append, io_contEvents, ih]
+
+theorem firstTerminal_not_continues (fs : List Frame) (x : Frame) (h : firstTerminal fs = some x) :
+    continuesF x = false := by
+  induction fs with
+  | nil => simp [firstTerminal] at h
+  | cons f fs ih =>
+    by_cases hf : continuesF f = true
+    · simp only [firstTerminal, List.dropWhile_cons, hf, if_true] at h
+      exact ih (by simpa [firstTerminal] using h)
+    · have hf' : continuesF f = false := by simpa using hf
+      simp [firstTerminal, List.dropWhile_cons, hf'] at h
+      subst h; exact hf'
+
+/-- the terminal frame's events carry no send and no yield, deliver exactly that frame -/
+theorem terminal_projections (x : Frame) (hx : continuesF x = false) :
+    (stream proto [x]).1.filterMap Ev.sent? = [] ∧ (stream proto [x]).1.filterMap Ev.yielded? = [] ∧
+    (stream proto [x]).1.filterMap Ev.recv? = [x] ∧ (stream proto [x]).1.filter Ev.isIO = [.recv x] := by
+  rcases terminal_events x hx with he | ⟨he, -⟩ <;> rw [he] <;> exact ⟨rfl, rfl, rfl, rfl⟩
+
+/-- every projection of the streaming loop at once -/
+theorem stream_projections (fs : List Frame) :
+    (stream proto fs).1.filterMap Ev.sent? = List.replicate (pingCount fs) Msg.pong ∧
+    (stream proto fs).1.filterMap Ev.yielded? =
+      (prefixUntilTerminal fs).filterMap (fun f => (letter f).truthyNextData) ∧
+    (stream proto fs).1.filterMap Ev.recv? = consumed fs ∧
+    (stream proto fs).1.filter Ev.isIO = (consumed fs).flatMap ioOf := by
+  rw [stream_split fs]
+  cases hft : firstTerminal fs with
+  | none =>
+    simp [sent_prefix, yielded_prefix, recv_prefix, io_prefix, pingCount, consumed, hft]
+  | some x =>
+    have hx := firstTerminal_not_continues fs x hft
+    have hnp : pingF x = false := by
+      unfold continuesF at hx
+      unfold pingF
+      cases hl : letter x <;> simp [hl, Letter.continues, Letter.isPing] at hx ⊢
+    obtain ⟨t1, t2, t3, t4⟩ := terminal_projections x hx
+    have hio : ioOf x = [.recv x] := by simp [ioOf, hnp]
+    simp [t1, t2, t3, t4, hio, sent_prefix, yielded_prefix, recv_prefix, io_prefix, pingCount, consumed, hft,
+      List.filterMap_append, List.filter_append]
+
+/-- the outcome of the loop is decided by the first terminal frame alone -/
+theorem stream_outcome (fs : List Frame) :
+    (stream proto fs).2 =
+      match firstTerminal fs with
+      | none => .exhausted
+      | some x => (stream proto [x]).2 := by
+  rw [stream_split fs]
+  cases firstTerminal fs <;> rfl
+
+theorem truthy_eq_all_of_no_falsy (pre : List Frame) (h : pre.any (fun f => (letter f).falsyNext) = false) :
+    pre.filterMap (fun f => (letter f).truthyNextData) = pre.filterMap (fun f => (letter f).nextData) := by
+  induction pre with
+  | nil => rfl
+  | cons f pre ih =>
+    simp only [List.any_cons, Bool.or_eq_false_iff] at h
+    have hf : (letter f).truthyNextData = (letter f).nextData := by
+      cases hl : letter f <;> simp [hl, Letter.truthyNextData, Letter.nextData, Letter.falsyNext] at h ⊢
+      exact h.1
+    simp [List.filterMap_cons, hf, ih h.2]
+
+/-- the frames a run consumes when `fs = pre ++ x :: rest`, `pre` continuing, `x` terminal -/
+theorem split_at_terminal (pre rest : List Frame) (x : Frame) (hpre : ∀ f ∈ pre, continuesF f = true)
+    (hx : continuesF x = false) :
+    prefixUntilTerminal (pre ++ x :: rest) = pre ∧ firstTerminal (pre ++ x :: rest) = some x := by
+  induction pre with
+  | nil => simp [prefixUntilTerminal, firstTerminal, List.takeWhile_cons, List.dropWhile_cons, hx]
+  | cons f pre ih =>
+    have hf := hpre f (by simp)
+    have ih' := ih (fun g hg => hpre g (by simp [hg]))
+    simp only [prefixUntilTerminal, firstTerminal] at ih' ⊢
+    simp [List.takeWhile_cons, List.dropWhile_cons, hf, ih'.1, ih'.2]
+
+theorem handleTel_eq (t : Types) (e : Option String) (f : Frame) :
+    WsClientOT.handleTel t e f = handle t e f := by
+  cases f with
+  | text s => rfl
+  | badBytes => rfl
+  | json j =>
+    cases j with
+    | obj kvs =>
+      simp only [WsClientOT.handleTel, WsClientOT.withSpan, handle, handle.dispatch]
+      cases typeCheck t (J.lookup "type" kvs) <;> cases e <;> rfl
+    | null => rfl
+    | bool _ => rfl
+    | num _ _ => rfl
+    | str _ => rfl
+    | arr _ => rfl
+
+theorem streamTel_eq (t : Types) (fs : List Frame) : WsClientOT.streamTel t fs = stream t fs := by
+  induction fs with
+  | nil => rfl
+  | cons f fs ih =>
+    simp only [WsClientOT.streamTel, stream, handleTel_eq, ih]
+    cases handle t none f with
+    | ret d => cases d <;> rfl
+    | retClose => rfl
+    | retPong => rfl
+    | raise o => rfl
+
+theorem afterAckTel_eq (t : Types) (cfg : Cfg) (vars : Vars) (c : Bool) (fs : List Frame) :
+    WsClientOT.afterAckTel t cfg vars c fs = afterAck t cfg vars c fs := by
+  simp only [WsClientOT.afterAckTel, WsClientOT.withSpan, afterAck, streamTel_eq]
+  cases serialise vars <;> rfl
+
+theorem runTel_eq (t : Types) (sp : String) (cfg : Cfg) (vars : Vars) (fs : List Frame) :
+    WsClientOT.runTel t sp cfg vars fs = runT t sp cfg vars fs := by
+  simp only [WsClientOT.runTel, WsClientOT.withSpan, runT]
+  split
+  · rfl
+  · cases fs with
+    | nil => rfl
+    | cons f fs =>
+      simp only [handleTel_eq, afterAckTel_eq]
+      cases handle t (some t.ack) f <;> rfl
+
+theorem received_of_shape (c i s : Ev) (a : Frame) (mid tail : List Ev)
+    (hc : Ev.recv? c = none) (hi : Ev.recv? i = none) (hs : Ev.recv? s = none) :
+    List.filterMap Ev.recv? ([c, i, .recv a, s] ++ mid ++ tail) =
+      a :: (mid.filterMap Ev.recv? ++ tail.filterMap Ev.recv?) := by
+  have ha : Ev.recv? (Ev.recv a) = some a := rfl
+  simp [List.filterMap_append, List.filterMap_cons, hc, hi, hs, ha]
+
+
+/-! ### `dict.update` on association lists (the header merge of `execute_ws`) -/
+
+theorem dictSet_lookup (k' : String) (v' : J) (a : List (String × J)) (k : String) :
+    J.lookup k (dictSet k' v' a) = if k' = k then some v' else J.lookup k a := by
+  induction a with
+  | nil => simp [dictSet, J.lookup]
+  | cons p a ih =>
+    obtain ⟨k'', v''⟩ := p
+    by_cases h1 : k'' = k'
+    · subst h1
+      by_cases h2 : k'' = k <;> simp [dictSet, J.lookup, h2]
+    · by_cases h2 : k' = k
+      · subst h2
+        simp [dictSet, J.lookup, h1, ih]
+      · by_cases h3 : k'' = k
+        · subst h3
+          simp [dictSet, J.lookup, h1, h2, ih]
+        · simp [dictSet, J.lookup, h1, h2, h3, ih]
+
+theorem dictUpdate_lookup_none (a b : List (String × J)) (k : String) (h : J.lookup k b = none) :
+    J.lookup k (dictUpdate a b) = J.lookup k a := by
+  induction b generalizing a with
+  | nil => rfl
+  | cons p b ih =>
+    obtain ⟨k', v'⟩ := p
+    by_cases hk : k' = k
+    · simp [J.lookup, hk] at h
+    · simp only [J.lookup, hk, if_false] at h
+      simp only [dictUpdate]
+      rw [ih _ h, dictSet_lookup]
+      simp [hk]
+
+theorem lookup_none_of_not_mem (b : List (String × J)) (k : String) (h : k ∉ b.map (·.1)) :
+    J.lookup k b = none := by
+  induction b with
+  | nil => rfl
+  | cons p b ih =>
+    obtain ⟨k', v'⟩ := p
+    simp only [List.map_cons, List.mem_cons, not_or] at h
+    simp [J.lookup, Ne.symm h.1, ih h.2]
+
+theorem dictUpdate_lookup_some (a b : List (String × J)) (k : String) (v : J)
+    (hn : (b.map (·.1)).Nodup) (h : J.lookup k b = some v) :
+    J.lookup k (dictUpdate a b) = some v := by
+  induction b generalizing a with
+  | nil => simp [J.lookup] at h
+  | cons p b ih =>
+    obtain ⟨k', v'⟩ := p
+    simp only [List.map_cons, List.nodup_cons] at hn
+    by_cases hk : k' = k
+    · subst hk
+      simp [J.lookup] at h
+      subst h
+      simp only [dictUpdate]
+      rw [dictUpdate_lookup_none _ _ _ (lookup_none_of_not_mem b k' hn.1), dictSet_lookup]
+      simp
+    · simp only [J.lookup, hk, if_false] at h
+      simp only [dictUpdate]
+      exact ih _ hn.2 h
+
 end Ariadne.WsProofs
